@@ -193,3 +193,8 @@ package actionlint
 //@ func (*ExprParser).parsePostfixOp
 //@   loop "for":
 //@     invariant [C04] ret != nil
+
+// C04: the verdict on a text does not depend on what the parser was used for before: parsing starts without a
+// recorded error
+//@ func (*ExprParser).Parse
+//@   at_call [C04] (*ExprParser).parseLogicalOr: p.err == nil
